@@ -397,7 +397,7 @@ def _flat(x):
     return a.shape, [a[idx] for idx in np.ndindex(*a.shape)] if a.shape else [a.item() if hasattr(a, "item") else a]
 
 
-def _scn_goal(scn, got, exp, R):
+def _scn_goal(scn, got, exp, R, pc=()):
     """z3 goal `got equals exp` (True / False when decided syntactically); raises TypeError on entries that are no numbers"""
     import numpy as np
     if isinstance(exp, tuple) and exp and exp[0] == "values":                         # counts keyed by eigenvalues
@@ -439,7 +439,11 @@ def _scn_goal(scn, got, exp, R):
         ta, tb = R.term_of(a), R.term_of(b)
         if ta.eq(tb):
             continue
-        if isinstance(a, (float, np.floating)) or isinstance(b, float):
+        is_float = isinstance(a, (float, np.floating)) or isinstance(b, float)
+        d = R.difference_value(ta, tb, pc)                 # polynomial normal form: decides identities without the solver
+        if d is not None and (abs(d) <= TOL if is_float else d == 0):
+            continue
+        if is_float:
             goals.append(z3.And(ta - tb <= TOL, tb - ta <= TOL))
         else:
             goals.append(ta == tb)
@@ -508,7 +512,7 @@ def _scn_witness(scn, samples, values):
     return dict(measurement=scn.label(), samples=samples.tolist(), parameters=None if values is None else [float(v) for v in values])
 
 
-def symbolic_scenarios(scns, shape, quick_skip=None):
+def symbolic_scenarios(scns, shape, assume=None):
     """obligation body: every bit array of `shape` x every scenario, real code on symbolic parameters, VC per path"""
     from vf.common import Outcome, DISCHARGED, REFUTED, UNDECIDED, FAULT
     from vf.symx import bits as B
@@ -517,6 +521,7 @@ def symbolic_scenarios(scns, shape, quick_skip=None):
     def fn():
         n_paths = n_runs = 0
         left = None
+        cache = {}
         for samples in _all_bit_arrays(shape):
             for scn in scns:
                 n_runs += 1
@@ -529,17 +534,22 @@ def symbolic_scenarios(scns, shape, quick_skip=None):
                                        replay=dict(confirmed=True, observed=bad, expected="direct arithmetic on the samples"))
                     continue
                 holder = {}
+                pre = ()
+                if assume and scn.kind == "counts" and scn.eig == "eigvals":
+                    es = [z3.Real(f"e{i}") for i in range(npar)]
+                    same = z3.Or(*[a == b for a, b in itertools.combinations(es, 2)])
+                    pre = (same,) if assume == "degenerate" else (z3.Not(same),)
 
                 def run(scn=scn, samples=samples, npar=npar):
                     params, consts = R.real_array(npar, "e")
                     holder["consts"], holder["params"] = consts, params
                     return scn.call(scn.build_mp(params), samples)
                 try:
-                    res = B.explore(run, max_paths=400, budget_s=120)
+                    res = R.explore(run, cache, assumptions=pre, max_paths=400)
                 except Exception as ex:  # pylint: disable=broad-except
                     left = left or f"{scn.label()}: {type(ex).__name__}: {ex}"
                     continue
-                if len(res) > 1 and not B.covers_everything(res):
+                if len(res) > 1 and not R.covers_everything(res, cache, pre):
                     return Outcome(FAULT, "bits", f"path conditions do not cover the parameter space: {scn.label()}")
                 consts = holder["consts"]
                 exp = scn.expected(samples, holder["params"])
@@ -553,7 +563,7 @@ def symbolic_scenarios(scns, shape, quick_skip=None):
                         model = s_.model() if s_.check() == z3.sat else None
                     else:
                         try:
-                            goal = _scn_goal(scn, r.value, exp, R)
+                            goal = _scn_goal(scn, r.value, exp, R, r.pc)
                         except TypeError as ex:
                             left = left or f"{scn.label()}: result not comparable: {ex}"
                             continue
@@ -687,8 +697,14 @@ def sample_obligations(plan, tier):
             if not scns:
                 continue
             tag = ("B=%d," % shape[0] if len(shape) == 3 else "") + f"S={shape[-2]},N={shape[-1]}"
-            plan.add(Obligation(f"{names[group]}[{tag}]", "post", symbolic_scenarios(scns, shape), func=funcs[group], size_bounded=True,
-                                timeout=900 if quick else 3600, sample=samples_txt[group]))
+            plan.add(Obligation(f"{names[group]}[{tag}]", "post", symbolic_scenarios(scns, shape, assume="distinct" if group == "counts" else None),
+                                func=funcs[group], size_bounded=True, timeout=900 if quick else 3600, sample=samples_txt[group]))
+            if group == "counts" and shape == (2, 1):
+                # the complementary half of the eigenvalue domain (some eigenvalues coincide): candidate defect F33 on the unchanged tree
+                deg = [sc for sc in scns if sc.eig == "eigvals"]
+                plan.add(Obligation(f"C30/counts:CountsMP.process_samples/coinciding-eigenvalues[{tag}]", "post",
+                                    symbolic_scenarios(deg, shape, assume="degenerate"), func=(CNT, "CountsMP._samples_to_counts"), size_bounded=True,
+                                    finding="F33", timeout=900, sample="counts keyed by eigenvalues when two basis states share an eigenvalue"))
     for file, qual in ((PRS, "process_raw_samples"), (SAMP, "SampleMP.process_samples"), (EXPV, "ExpectationMP.process_samples"),
                        (VARF, "VarianceMP.process_samples"), (CNT, "CountsMP.process_samples"), (CNT, "CountsMP._samples_to_counts"),
                        (PROBS, "ProbabilityMP.process_samples"), (PROBS, "ProbabilityMP._count_samples"),
@@ -731,6 +747,8 @@ def sample_obligations(plan, tier):
             for wsel in _selections(order, 2):
                 for ev in pools[len(wsel)]:
                     for kind, allo in (("sample", False), ("expval", False), ("var", False), ("counts", False), ("counts", True)):
+                        if kind == "counts" and len(set(ev)) < len(ev):
+                            continue                                   # coinciding eigenvalues: obligation .../coinciding-eigenvalues (F33)
                         for sr in (None, (1, 4)):
                             scn = Scn(kind, "eigvals", order, wsel, sr, all_outcomes=allo)
                             for samples in [rng.integers(0, 2, size=(5, n)) for _ in range(4)] + [rng.integers(0, 2, size=(2, 5, n))] * (kind != "counts"):
